@@ -2461,3 +2461,343 @@ Proof.
   - intros a a' b b' H H0; rewrite H, H0; reflexivity.
   - intros; ring.
 Qed.
+(* ================================================================ operation_on_pair_of_landscapes (one level) is pointwise *)
+Lemma function_value_swap : forall p q x, ~ fst q - fst p == 0 -> function_value q p x == line_val p q x.
+Proof.
+  intros p q x H. unfold function_value, line_val, radd, rsub, rmul, rdiv. repeat rewrite Qred_correct. field.
+  repeat split; intro E; apply H; lra.
+Qed.
+Lemma xsorted_snoc : forall l p, xsorted l -> (forall q, In q l -> fst q < fst p) -> xsorted (l ++ [p]).
+Proof.
+  intros l p Hs Hlt. unfold xsorted in *. rewrite map_app. apply SS_app_intro; auto.
+  - simpl. repeat constructor.
+  - intros x y Hx Hy. simpl in Hy. destruct Hy as [Hy|[]]. subst y. apply in_map_iff in Hx. destruct Hx as [q [Eq Hq]]. subst x. apply Hlt; auto.
+Qed.
+Lemma xsorted_app : forall a b, xsorted a -> xsorted b -> (forall p q, In p a -> In q b -> fst p < fst q) -> xsorted (a ++ b).
+Proof.
+  intros a b Ha Hb Hc. unfold xsorted in *. rewrite map_app. apply SS_app_intro; auto.
+  intros x y Hx Hy. apply in_map_iff in Hx. apply in_map_iff in Hy. destruct Hx as [p [Ep Hp]]. destruct Hy as [q [Eq Hq]]. subst. apply Hc; auto.
+Qed.
+Lemma xsorted_of_nth : forall l, (forall i j, (i < j)%nat -> (j < length l)%nat -> fst (nthp l i) < fst (nthp l j)) -> xsorted l.
+Proof.
+  induction l as [|p l IH]; intros H; [constructor|]. unfold xsorted; simpl. constructor.
+  - apply IH. intros i j Hij Hj. apply (H (S i) (S j)); simpl; lia.
+  - apply Forall_forall. intros x Hx. apply in_map_iff in Hx. destruct Hx as [q [Eq Hq]]. subst x.
+    destruct (In_nth _ _ pt0 Hq) as [j [Hj Ej]]. rewrite <- Ej. apply (H O (S j)); simpl; lia.
+Qed.
+(* the elements l[p], ..., l[p+n-1] *)
+Definition slice (l : list pt) (p n : nat) : list pt := firstn n (skipn p l).
+Lemma nth_firstn_lt : forall (l : list pt) n i d, (i < n)%nat -> nth i (firstn n l) d = nth i l d.
+Proof.
+  induction l as [|a l IH]; intros n i d H; [rewrite firstn_nil; reflexivity|].
+  destruct n; [lia|]. destruct i; [reflexivity|]. simpl. apply IH. lia.
+Qed.
+Lemma nth_skipn_add : forall (l : list pt) p i d, nth i (skipn p l) d = nth (p + i) l d.
+Proof.
+  induction l as [|a l IH]; intros p i d; [rewrite skipn_nil; destruct i, p; reflexivity|].
+  destruct p; [reflexivity|]. simpl. apply IH.
+Qed.
+Lemma slice_nth : forall l p n i, (i < n)%nat -> (p + i < length l)%nat -> nthp (slice l p n) i = nthp l (p + i).
+Proof. intros l p n i Hi Hl. unfold slice, nthp. rewrite nth_firstn_lt by auto. apply nth_skipn_add. Qed.
+Lemma slice_length : forall l p n, (p + n <= length l)%nat -> length (slice l p n) = n.
+Proof. intros; unfold slice. rewrite firstn_length, skipn_length. lia. Qed.
+Lemma slice_in : forall l p n x, (p + n <= length l)%nat -> In x (slice l p n) -> exists i, (p <= i < p + n)%nat /\ x = nthp l i.
+Proof.
+  intros l p n x Hl Hx. destruct (In_nth _ _ pt0 Hx) as [i [Hi Ei]]. rewrite slice_length in Hi by auto.
+  exists (p + i)%nat. split; [lia|]. rewrite <- Ei. fold (nthp (slice l p n) i). apply slice_nth; lia.
+Qed.
+Lemma in_slice : forall l p n i, (p + n <= length l)%nat -> (p <= i < p + n)%nat -> In (nthp l i) (slice l p n).
+Proof.
+  intros l p n i Hl Hi. replace i with (p + (i - p))%nat by lia. rewrite <- (slice_nth l p n (i - p)) by lia.
+  apply nth_In. rewrite slice_length by auto. lia.
+Qed.
+
+Section Merge.
+  Variable oper : Q -> Q -> Q.
+  Hypothesis oper_comp : forall a a' b b', a == a' -> b == b' -> oper a b == oper a' b'.
+  Variables l1 l2 : list pt.
+  Hypothesis S1 : xsorted l1.
+  Hypothesis S2 : xsorted l2.
+  Hypothesis Hfirst : fst (nthp l1 0) == fst (nthp l2 0).
+
+  Definition MI (p q : nat) (acc : list pt) : Prop :=
+    (p <= length l1 - 1)%nat /\ (q <= length l2 - 1)%nat /\
+    ((p = 0 /\ q = 0)%nat \/ (1 <= p /\ 1 <= q)%nat) /\
+    xsorted acc /\
+    (forall a, In a acc -> fst a < fst (nthp l1 p) /\ fst a < fst (nthp l2 q)) /\
+    (forall a, In a acc -> snd a == oper (interp l1 (fst a)) (interp l2 (fst a))) /\
+    (forall i, (i < p)%nat -> exists a, In a acc /\ fst a == fst (nthp l1 i)) /\
+    (forall j, (j < q)%nat -> exists a, In a acc /\ fst a == fst (nthp l2 j)).
+
+  Lemma nth_is_value : forall l i, xsorted l -> (i < length l)%nat -> snd (nthp l i) == interp l (fst (nthp l i)).
+  Proof. intros l i Hs Hi. symmetry. apply interp_at_breakpoint; auto. apply nth_In; auto. Qed.
+
+  Lemma merge_main_inv : forall fuel p q acc p' q' acc',
+    merge_main fuel oper l1 l2 p q acc = Some (p', q', acc') -> MI p q acc ->
+    MI p' q' acc' /\ ~ ((p' + 1 < length l1)%nat /\ (q' + 1 < length l2)%nat).
+  Proof.
+    induction fuel as [|fuel IH]; intros p q acc p' q' acc' H Inv; [discriminate|].
+    cbn [merge_main] in H.
+    destruct (Nat.ltb (p + 1) (length l1) && Nat.ltb (q + 1) (length l2)) eqn:Econd.
+    2:{ inversion H; subst. split; auto. intros [A B]. apply Nat.ltb_lt in A. apply Nat.ltb_lt in B. rewrite A, B in Econd. discriminate. }
+    apply andb_prop in Econd. destruct Econd as [Ep Eq]. apply Nat.ltb_lt in Ep. apply Nat.ltb_lt in Eq.
+    destruct Inv as [Ia [Ib [Ic [Ie [Ilt [If [Ig1 Ig2]]]]]]].
+    set (P := nthp l1 p) in *. set (R := nthp l2 q) in *.
+    assert (HP1 : fst P < fst (nthp l1 (p + 1))) by (apply xsorted_nth_lt; auto; lia).
+    assert (HR1 : fst R < fst (nthp l2 (q + 1))) by (apply xsorted_nth_lt; auto; lia).
+    destruct (Qlt_bool (fst P) (fst R)) eqn:E1.
+    - (* the next abscissa comes from the first operand *)
+      apply Qlt_bool_iff'' in E1.
+      assert (Hq1 : (1 <= q)%nat).
+      { destruct Ic as [[A B]|[A B]]; auto. exfalso. subst p q. unfold P, R in E1. lra. }
+      apply (IH _ _ _ _ _ _ H). unfold MI. replace (S p) with (p + 1)%nat by lia. fold P R.
+      split; [lia|]. split; [lia|]. split; [right; lia|].
+      split; [apply xsorted_snoc; auto; intros a Ha; simpl; apply Ilt; auto|].
+      split.
+      { intros a Ha. apply in_app_or in Ha. destruct Ha as [Ha|[Ha|[]]].
+        - destruct (Ilt a Ha). fold P in H0. split; lra.
+        - subst a; simpl. split; lra. }
+      split.
+      { intros a Ha. apply in_app_or in Ha. destruct Ha as [Ha|[Ha|[]]]; [apply If; auto|]. subst a; simpl.
+        apply oper_comp; [apply nth_is_value; auto; lia|].
+        destruct (Ig2 (q - 1)%nat ltac:(lia)) as [a [Ha Ea]]. destruct (Ilt a Ha) as [La _]. fold P in La.
+        assert (Hlt2 : fst (nthp l2 (q - 1)) < fst (nthp l2 q)) by (apply xsorted_nth_lt; auto; lia).
+        rewrite function_value_line_val by (fold R; lra).
+        symmetry. unfold R. replace (nthp l2 q) with (nthp l2 (q - 1 + 1)) by (f_equal; lia). apply (interp_segment_closed l2 (q - 1)); auto; try lia.
+        - rewrite <- Ea. lra.
+        - replace (q - 1 + 1)%nat with q by lia. fold R. lra. }
+      split.
+      { intros i Hi. destruct (Nat.eq_dec i p) as [e|ne].
+        - subst i. exists (fst P, oper (snd P) (function_value (nthp l2 (q - 1)) (nthp l2 q) (fst P))). split; [apply in_or_app; right; left; auto | reflexivity].
+        - destruct (Ig1 i ltac:(lia)) as [a [Ha Ea]]. exists a; split; auto. apply in_or_app; auto. }
+      intros j Hj. destruct (Ig2 j Hj) as [a [Ha Ea]]. exists a; split; auto. apply in_or_app; auto.
+    - destruct (Qlt_bool (fst R) (fst P)) eqn:E2.
+      + (* from the second operand *)
+        apply Qlt_bool_iff'' in E2.
+        assert (Hp1 : (1 <= p)%nat).
+        { destruct Ic as [[A B]|[A B]]; auto. exfalso. subst p q. unfold P, R in E2. lra. }
+        apply (IH _ _ _ _ _ _ H). unfold MI. replace (S q) with (q + 1)%nat by lia. fold P R.
+        split; [lia|]. split; [lia|]. split; [right; lia|].
+        split; [apply xsorted_snoc; auto; intros a Ha; simpl; apply Ilt; auto|].
+        split.
+        { intros a Ha. apply in_app_or in Ha. destruct Ha as [Ha|[Ha|[]]].
+          - destruct (Ilt a Ha). fold R in H1. split; lra.
+          - subst a; simpl. split; lra. }
+        split.
+        { intros a Ha. apply in_app_or in Ha. destruct Ha as [Ha|[Ha|[]]]; [apply If; auto|]. subst a; simpl.
+          apply oper_comp; [|apply nth_is_value; auto; lia].
+          destruct (Ig1 (p - 1)%nat ltac:(lia)) as [a [Ha Ea]]. destruct (Ilt a Ha) as [_ La]. fold R in La.
+          assert (Hlt2 : fst (nthp l1 (p - 1)) < fst (nthp l1 p)) by (apply xsorted_nth_lt; auto; lia).
+          rewrite function_value_swap by (fold P; lra).
+          symmetry. unfold P. replace (nthp l1 p) with (nthp l1 (p - 1 + 1)) by (f_equal; lia). apply (interp_segment_closed l1 (p - 1)); auto; try lia.
+          - rewrite <- Ea. lra.
+          - replace (p - 1 + 1)%nat with p by lia. fold P. lra. }
+        split.
+        { intros i Hi. destruct (Ig1 i Hi) as [a [Ha Ea]]. exists a; split; auto. apply in_or_app; auto. }
+        intros j Hj. destruct (Nat.eq_dec j q) as [e|ne].
+        * subst j. exists (fst R, oper (function_value (nthp l1 p) (nthp l1 (p - 1)) (fst R)) (snd R)). split; [apply in_or_app; right; left; auto | reflexivity].
+        * destruct (Ig2 j ltac:(lia)) as [a [Ha Ea]]. exists a; split; auto. apply in_or_app; auto.
+      + (* a common abscissa *)
+        assert (EPR : fst P == fst R).
+        { destruct (Qlt_le_dec (fst P) (fst R)) as [A|A]; [apply Qlt_bool_iff'' in A; congruence|].
+          destruct (Qlt_le_dec (fst R) (fst P)) as [B|B]; [apply Qlt_bool_iff'' in B; congruence | lra]. }
+        apply (IH _ _ _ _ _ _ H). unfold MI. replace (S p) with (p + 1)%nat by lia. replace (S q) with (q + 1)%nat by lia. fold P R.
+        split; [lia|]. split; [lia|]. split; [right; lia|].
+        split; [apply xsorted_snoc; auto; intros a Ha; simpl; apply Ilt; auto|].
+        split.
+        { intros a Ha. apply in_app_or in Ha. destruct Ha as [Ha|[Ha|[]]].
+          - destruct (Ilt a Ha). fold P in H0. fold R in H1. split; lra.
+          - subst a; simpl. split; lra. }
+        split.
+        { intros a Ha. apply in_app_or in Ha. destruct Ha as [Ha|[Ha|[]]]; [apply If; auto|]. subst a; simpl.
+          apply oper_comp; [|apply nth_is_value; auto; lia].
+          rewrite <- (interp_comp l1 _ _ EPR). apply nth_is_value; auto; lia. }
+        split.
+        { intros i Hi. destruct (Nat.eq_dec i p) as [e|ne].
+          - subst i. exists (fst R, oper (snd P) (snd R)). split; [apply in_or_app; right; left; auto | simpl; symmetry; exact EPR].
+          - destruct (Ig1 i ltac:(lia)) as [a [Ha Ea]]. exists a; split; auto. apply in_or_app; auto. }
+        intros j Hj. destruct (Nat.eq_dec j q) as [e|ne].
+        * subst j. exists (fst R, oper (snd P) (snd R)). split; [apply in_or_app; right; left; auto | reflexivity].
+        * destruct (Ig2 j ltac:(lia)) as [a [Ha Ea]]. exists a; split; auto. apply in_or_app; auto.
+  Qed.
+End Merge.
+
+Lemma zero_tail : forall l x, xsorted l -> (2 <= length l)%nat ->
+  snd (nthp l (length l - 2)) == 0 -> snd (nthp l (length l - 1)) == 0 -> fst (nthp l (length l - 2)) <= x -> interp l x == 0.
+Proof.
+  intros l x Hs Hlen Y2 Y1 Hx. destruct (Qlt_le_dec (fst (nthp l (length l - 1))) x) as [Hgt|Hle].
+  - assert (Hne : l <> []) by (destruct l; [simpl in Hlen; lia | discriminate]).
+    rewrite (interp_right l x Hs Hne) by lra. exact Y1.
+  - rewrite (interp_segment_closed l (length l - 2) x Hs) by (try lia; auto; replace (length l - 2 + 1)%nat with (length l - 1)%nat by lia; auto).
+    unfold line_val. replace (length l - 2 + 1)%nat with (length l - 1)%nat by lia. rewrite Y2, Y1. ring.
+Qed.
+Lemma xsorted_slice : forall l p n, xsorted l -> (p + n <= length l)%nat -> xsorted (slice l p n).
+Proof.
+  intros l p n Hs Hl. apply xsorted_of_nth. intros i j Hij Hj. rewrite slice_length in Hj by auto.
+  rewrite !slice_nth by lia. apply xsorted_nth_lt; auto; lia.
+Qed.
+Lemma xsorted_map_same_fst : forall (g : pt -> pt) l, (forall p, fst (g p) = fst p) -> xsorted l -> xsorted (map g l).
+Proof. intros g l Hg Hs. unfold xsorted in *. rewrite map_map. erewrite map_ext; [exact Hs|]. intros; apply Hg. Qed.
+Lemma xsorted_first_le : forall r q, xsorted r -> In q r -> fst (nthp r 0) <= fst q.
+Proof.
+  intros r q Hs Hq. destruct (In_nth _ _ pt0 Hq) as [j [Hj Ej]]. rewrite <- Ej. fold (nthp r j).
+  destruct j; [apply Qle_refl|]. apply Qlt_le_weak. apply xsorted_nth_lt; auto; lia.
+Qed.
+
+Section MergeLevel.
+  Variable oper : Q -> Q -> Q.
+  Hypothesis oper_comp : forall a a' b b', a == a' -> b == b' -> oper a b == oper a' b'.
+  Hypothesis oper_lin : forall y1 y2 y1' y2' s,
+    oper (y1 + (y2 - y1) * s) (y1' + (y2' - y1') * s) == oper y1 y1' + (oper y2 y2' - oper y1 y1') * s.
+  Hypothesis oper_00 : oper 0 0 == 0.
+
+  (* the common end of both cases: acc followed by the rest of one operand (the other being 0 there) and the sentinel *)
+  Lemma assemble : forall l1 l2 acc tail,
+    xsorted l1 -> xsorted l2 -> (2 <= length l1)%nat -> (2 <= length l2)%nat ->
+    fst (nthp l1 (length l1 - 1)) == INF -> fst (nthp l2 (length l2 - 1)) == INF ->
+    snd (nthp l1 (length l1 - 1)) == 0 -> snd (nthp l2 (length l2 - 1)) == 0 ->
+    xsorted acc -> xsorted tail ->
+    (forall a b, In a acc -> In b tail -> fst a < fst b) ->
+    (forall a, In a acc -> fst a < INF) -> (forall b, In b tail -> fst b < INF) ->
+    (forall a, In a (acc ++ tail) -> snd a == oper (interp l1 (fst a)) (interp l2 (fst a))) ->
+    (forall i, (i < length l1 - 1)%nat -> exists a, In a (acc ++ tail) /\ fst a == fst (nthp l1 i)) ->
+    (forall j, (j < length l2 - 1)%nat -> exists a, In a (acc ++ tail) /\ fst a == fst (nthp l2 j)) ->
+    forall t, fst (nthp l1 0) <= t -> t <= INF ->
+    interp (acc ++ tail ++ [(INF, 0)]) t == oper (interp l1 t) (interp l2 t).
+  Proof.
+    intros l1 l2 acc tail S1 S2 L1 L2 X1 X2 Y1 Y2 Sa St Hat Ha Ht Hval C1 C2 t Ht0 Ht1.
+    set (z := (INF, 0)). set (r := acc ++ tail ++ [z]).
+    assert (Er : r = (acc ++ tail) ++ [z]) by (unfold r; rewrite app_assoc; reflexivity).
+    assert (Sr : xsorted r).
+    { rewrite Er. apply xsorted_snoc; [apply xsorted_app; auto|].
+      intros q Hq. apply in_app_or in Hq. simpl. destruct Hq; auto. }
+    assert (Hz1 : interp l1 INF == 0).
+    { rewrite <- (interp_comp l1 _ _ X1). rewrite interp_at_breakpoint; auto. apply nth_In; lia. }
+    assert (Hz2 : interp l2 INF == 0).
+    { rewrite <- (interp_comp l2 _ _ X2). rewrite interp_at_breakpoint; auto. apply nth_In; lia. }
+    assert (Cov1 : forall p, In p l1 -> exists q, In q r /\ fst q == fst p).
+    { intros p Hp. destruct (In_nth _ _ pt0 Hp) as [i [Hi Ei]]. fold (nthp l1 i) in Ei.
+      destruct (Nat.eq_dec i (length l1 - 1)) as [e|ne].
+      - exists z. split; [rewrite Er; apply in_or_app; right; left; auto|]. rewrite <- Ei, e. simpl. symmetry; exact X1.
+      - destruct (C1 i ltac:(lia)) as [a [Ha' Ea]]. exists a. split; [rewrite Er; apply in_or_app; auto | rewrite <- Ei; exact Ea]. }
+    assert (Cov2 : forall p, In p l2 -> exists q, In q r /\ fst q == fst p).
+    { intros p Hp. destruct (In_nth _ _ pt0 Hp) as [i [Hi Ei]]. fold (nthp l2 i) in Ei.
+      destruct (Nat.eq_dec i (length l2 - 1)) as [e|ne].
+      - exists z. split; [rewrite Er; apply in_or_app; right; left; auto|]. rewrite <- Ei, e. simpl. symmetry; exact X2.
+      - destruct (C2 i ltac:(lia)) as [a [Ha' Ea]]. exists a. split; [rewrite Er; apply in_or_app; auto | rewrite <- Ei; exact Ea]. }
+    assert (Hv : forall q, In q r -> snd q == oper (interp l1 (fst q)) (interp l2 (fst q))).
+    { intros q Hq. rewrite Er in Hq. apply in_app_or in Hq. destruct Hq as [Hq|[Hq|[]]]; [apply Hval; auto|].
+      subst q; simpl. rewrite (oper_comp _ _ _ _ Hz1 Hz2). symmetry; exact oper_00. }
+    assert (Hne : r <> []) by (rewrite Er; destruct (acc ++ tail); discriminate).
+    assert (Hlast : nthp r (length r - 1) = z).
+    { unfold nthp. rewrite Er, app_length. simpl. replace (length (acc ++ tail) + 1 - 1)%nat with (length (acc ++ tail)) by lia.
+      rewrite app_nth2 by lia. rewrite Nat.sub_diag. reflexivity. }
+    apply (pl_combination_determined oper oper_comp oper_lin l1 l2 r); auto.
+    - destruct (Cov1 (nthp l1 0) ltac:(apply nth_In; lia)) as [q [Hq Eq]].
+      eapply Qle_trans; [apply (xsorted_first_le r q Sr Hq)|]. lra.
+    - rewrite Hlast. simpl. exact Ht1.
+  Qed.
+
+  Theorem merge_level_pointwise : forall l1 l2 r,
+    xsorted l1 -> xsorted l2 -> (2 <= length l1)%nat -> (2 <= length l2)%nat ->
+    fst (nthp l1 0) == fst (nthp l2 0) ->
+    fst (nthp l1 (length l1 - 1)) == INF -> fst (nthp l2 (length l2 - 1)) == INF ->
+    snd (nthp l1 (length l1 - 2)) == 0 -> snd (nthp l1 (length l1 - 1)) == 0 ->
+    snd (nthp l2 (length l2 - 2)) == 0 -> snd (nthp l2 (length l2 - 1)) == 0 ->
+    merge_level oper l1 l2 = Some r ->
+    forall t, fst (nthp l1 0) <= t -> t <= INF -> interp r t == oper (interp l1 t) (interp l2 t).
+  Proof.
+    intros l1 l2 r S1 S2 L1 L2 Hfirst X1 X2 Y12 Y11 Y22 Y21 H t Ht0 Ht1.
+    unfold merge_level in H.
+    destruct (merge_main (S (length l1 + length l2)) oper l1 l2 0 0 []) as [[[p q] acc]|] eqn:E; [|discriminate].
+    assert (MI0 : MI oper l1 l2 0 0 []).
+    { unfold MI. split; [lia|]. split; [lia|]. split; [left; auto|]. split; [constructor|].
+      split; [intros a []|]. split; [intros a []|]. split; intros i Hi; lia. }
+    destruct (merge_main_inv oper oper_comp l1 l2 S1 S2 Hfirst _ _ _ _ _ _ _ E MI0) as [[Ia [Ib [Ic [Ie [Ilt [If [Ig1 Ig2]]]]]]] Hexit].
+    assert (Hpq : (1 <= p /\ 1 <= q)%nat).
+    { destruct Ic as [[A B]|]; auto. exfalso. apply Hexit. subst; lia. }
+    destruct Hpq as [Hp1 Hq1].
+    fold (slice l1 p (length l1 - 1 - p)) in H. fold (slice l2 q (length l2 - 1 - q)) in H.
+    destruct (Nat.leb (length l2) (q + 1)) eqn:Eq.
+    - (* the second operand is exhausted: the rest of the first one is copied with oper(y,0) *)
+      apply Nat.leb_le in Eq. assert (Eq' : q = (length l2 - 1)%nat) by lia.
+      assert (Emax : Nat.max p (length l1 - 1) = (length l1 - 1)%nat) by lia. rewrite Emax in H.
+      assert (El : Nat.leb (length l1) (length l1 - 1 + 1) = true) by (apply Nat.leb_le; lia). rewrite El in H.
+      replace (length l2 - 1 - q)%nat with O in H by lia. unfold slice at 2 in H. simpl firstn in H. simpl map in H.
+      injection H as Hr. subst r. simpl app.
+      set (g := fun P : pt => (fst P, oper (snd P) 0)).
+      assert (Hsl : (p + (length l1 - 1 - p) <= length l1)%nat) by lia.
+      assert (Hin : forall b, In b (map g (slice l1 p (length l1 - 1 - p))) -> exists i, (p <= i <= length l1 - 2)%nat /\ b = g (nthp l1 i)).
+      { intros b Hb. apply in_map_iff in Hb. destruct Hb as [c [Ec Hc]]. destruct (slice_in _ _ _ _ Hsl Hc) as [i [Hi Ei]].
+        exists i. split; [lia|]. subst; auto. }
+      apply (assemble l1 l2 acc (map g (slice l1 p (length l1 - 1 - p)))); auto.
+      + apply xsorted_map_same_fst; [reflexivity | apply xsorted_slice; auto].
+      + intros a b Ha Hb. destruct (Hin b Hb) as [i [Hi Eb]]. subst b. simpl. destruct (Ilt a Ha) as [A _].
+        destruct (Nat.eq_dec i p) as [e|ne]; [subst; auto|]. eapply Qlt_trans; [exact A|]. apply xsorted_nth_lt; auto; lia.
+      + intros a Ha. destruct (Ilt a Ha) as [A _]. rewrite <- X1.
+        destruct (Nat.eq_dec p (length l1 - 1)) as [e|ne]; [rewrite <- e; auto|]. eapply Qlt_trans; [exact A|]. apply xsorted_nth_lt; auto; lia.
+      + intros b Hb. destruct (Hin b Hb) as [i [Hi Eb]]. subst b. simpl. rewrite <- X1. apply xsorted_nth_lt; auto; lia.
+      + intros a Ha. apply in_app_or in Ha. destruct Ha as [Ha|Hb]; [apply If; auto|].
+        destruct (Hin a Hb) as [i [Hi Eb]]. subst a. simpl. apply oper_comp; [apply nth_is_value; auto; lia|].
+        symmetry. apply zero_tail; auto.
+        destruct (Ig2 (q - 1)%nat ltac:(lia)) as [a [Ha Ea]]. destruct (Ilt a Ha) as [A _].
+        replace (length l2 - 2)%nat with (q - 1)%nat by lia. rewrite <- Ea.
+        destruct (Nat.eq_dec i p) as [e|ne]; [subst; lra|]. pose proof (xsorted_nth_lt l1 p i S1 ltac:(lia) ltac:(lia)). lra.
+      + intros i Hi. destruct (Nat.lt_ge_cases i p) as [Hlt|Hge].
+        * destruct (Ig1 i Hlt) as [a [Ha Ea]]. exists a; split; auto. apply in_or_app; auto.
+        * exists (g (nthp l1 i)). split; [|reflexivity]. apply in_or_app; right. apply in_map. apply in_slice; auto; lia.
+      + intros j Hj. destruct (Ig2 j ltac:(lia)) as [a [Ha Ea]]. exists a; split; auto. apply in_or_app; auto.
+    - (* the first operand is exhausted *)
+      apply Nat.leb_gt in Eq. assert (Ep' : p = (length l1 - 1)%nat) by lia.
+      assert (El : Nat.leb (length l1) (p + 1) = true) by (apply Nat.leb_le; lia). rewrite El in H.
+      injection H as Hr. subst r. simpl app.
+      set (g := fun R : pt => (fst R, oper 0 (snd R))).
+      assert (Hsl : (q + (length l2 - 1 - q) <= length l2)%nat) by lia.
+      assert (Hin : forall b, In b (map g (slice l2 q (length l2 - 1 - q))) -> exists i, (q <= i <= length l2 - 2)%nat /\ b = g (nthp l2 i)).
+      { intros b Hb. apply in_map_iff in Hb. destruct Hb as [c [Ec Hc]]. destruct (slice_in _ _ _ _ Hsl Hc) as [i [Hi Ei]].
+        exists i. split; [lia|]. subst; auto. }
+      apply (assemble l1 l2 acc (map g (slice l2 q (length l2 - 1 - q)))); auto.
+      + apply xsorted_map_same_fst; [reflexivity | apply xsorted_slice; auto].
+      + intros a b Ha Hb. destruct (Hin b Hb) as [i [Hi Eb]]. subst b. simpl. destruct (Ilt a Ha) as [_ A].
+        destruct (Nat.eq_dec i q) as [e|ne]; [subst; auto|]. eapply Qlt_trans; [exact A|]. apply xsorted_nth_lt; auto; lia.
+      + intros a Ha. destruct (Ilt a Ha) as [A _]. rewrite <- X1. rewrite <- Ep'. exact A.
+      + intros b Hb. destruct (Hin b Hb) as [i [Hi Eb]]. subst b. simpl. rewrite <- X2. apply xsorted_nth_lt; auto; lia.
+      + intros a Ha. apply in_app_or in Ha. destruct Ha as [Ha|Hb]; [apply If; auto|].
+        destruct (Hin a Hb) as [i [Hi Eb]]. subst a. simpl. apply oper_comp; [|apply nth_is_value; auto; lia].
+        symmetry. apply zero_tail; auto.
+        destruct (Ig1 (p - 1)%nat ltac:(lia)) as [a [Ha Ea]]. destruct (Ilt a Ha) as [_ A].
+        replace (length l1 - 2)%nat with (p - 1)%nat by lia. rewrite <- Ea.
+        destruct (Nat.eq_dec i q) as [e|ne]; [subst; lra|]. pose proof (xsorted_nth_lt l2 q i S2 ltac:(lia) ltac:(lia)). lra.
+      + intros i Hi. destruct (Ig1 i ltac:(lia)) as [a [Ha Ea]]. exists a; split; auto. apply in_or_app; auto.
+      + intros j Hj. destruct (Nat.lt_ge_cases j q) as [Hlt|Hge].
+        * destruct (Ig2 j Hlt) as [a [Ha Ea]]. exists a; split; auto. apply in_or_app; auto.
+        * exists (g (nthp l2 j)). split; [|reflexivity]. apply in_or_app; right. apply in_map. apply in_slice; auto; lia.
+  Qed.
+End MergeLevel.
+
+(* the two instances used by operator+ and operator- *)
+Definition level_ok (l : list pt) : Prop :=
+  xsorted l /\ (2 <= length l)%nat /\ fst (nthp l 0) == - INF /\ fst (nthp l (length l - 1)) == INF /\
+  snd (nthp l (length l - 2)) == 0 /\ snd (nthp l (length l - 1)) == 0.
+Theorem merge_add_pointwise : forall l1 l2 r, level_ok l1 -> level_ok l2 -> merge_level radd l1 l2 = Some r ->
+  forall t, - INF <= t -> t <= INF -> interp r t == interp l1 t + interp l2 t.
+Proof.
+  intros l1 l2 r [S1 [L1 [F1 [X1 [Y12 Y11]]]]] [S2 [L2 [F2 [X2 [Y22 Y21]]]]] H t Ht0 Ht1.
+  rewrite <- radd_eq. apply (merge_level_pointwise radd) with (l1 := l1) (l2 := l2); auto.
+  - intros a a' b b' Ha Hb. rewrite !radd_eq, Ha, Hb. reflexivity.
+  - intros. rewrite !radd_eq. ring.
+  - rewrite radd_eq. ring.
+  - rewrite F1, F2. reflexivity.
+  - rewrite F1. exact Ht0.
+Qed.
+Theorem merge_sub_pointwise : forall l1 l2 r, level_ok l1 -> level_ok l2 -> merge_level rsub l1 l2 = Some r ->
+  forall t, - INF <= t -> t <= INF -> interp r t == interp l1 t - interp l2 t.
+Proof.
+  intros l1 l2 r [S1 [L1 [F1 [X1 [Y12 Y11]]]]] [S2 [L2 [F2 [X2 [Y22 Y21]]]]] H t Ht0 Ht1.
+  rewrite <- rsub_eq. apply (merge_level_pointwise rsub) with (l1 := l1) (l2 := l2); auto.
+  - intros a a' b b' Ha Hb. rewrite !rsub_eq, Ha, Hb. reflexivity.
+  - intros. rewrite !rsub_eq. ring.
+  - rewrite rsub_eq. ring.
+  - rewrite F1, F2. reflexivity.
+  - rewrite F1. exact Ht0.
+Qed.
